@@ -151,16 +151,25 @@ func (t *PageTree) loadPages() error {
 	t.pages = make([]*Page, 0)
 
 	// Start recursive traversal from root
-	if err := t.traversePageNode(t.root, nil); err != nil {
+	if err := t.traversePageNode(t.root, nil, 0); err != nil {
 		return fmt.Errorf("failed to traverse page tree: %w", err)
 	}
 
 	return nil
 }
 
-// traversePageNode recursively traverses a page tree node
-// parent is the parent Pages dictionary for inheritable attributes
-func (t *PageTree) traversePageNode(node core.Dict, parent core.Dict) error {
+// maxPageTreeDepth bounds the nesting of Pages nodes. Real documents use a handful
+// of levels; a /Kids entry that points back at an ancestor would otherwise recurse
+// until the stack is exhausted.
+const maxPageTreeDepth = 256
+
+// traversePageNode recursively traverses a page tree node.
+// ancestors are the enclosing Pages dictionaries, nearest first, for inheritable attributes.
+func (t *PageTree) traversePageNode(node core.Dict, ancestors []core.Dict, depth int) error {
+	if depth > maxPageTreeDepth {
+		return fmt.Errorf("page tree nested deeper than %d levels (cyclic /Kids?)", maxPageTreeDepth)
+	}
+
 	// Get the type to determine if this is a Pages node or Page leaf
 	typeObj := node.Get("Type")
 	if typeObj == nil {
@@ -204,15 +213,23 @@ func (t *PageTree) traversePageNode(node core.Dict, parent core.Dict) error {
 				return fmt.Errorf("invalid kid type: %T", kidResolved)
 			}
 
-			// Recursively traverse child (passing current node as parent)
-			if err := t.traversePageNode(kidDict, node); err != nil {
+			// Recursively traverse child (the current node becomes its nearest ancestor)
+			chain := make([]core.Dict, 0, len(ancestors)+1)
+			chain = append(chain, node)
+			chain = append(chain, ancestors...)
+			if err := t.traversePageNode(kidDict, chain, depth+1); err != nil {
 				return err
 			}
 		}
 
 	case "Page":
 		// Leaf node - create Page object
+		var parent core.Dict
+		if len(ancestors) > 0 {
+			parent = ancestors[0]
+		}
 		page := NewPage(node, parent, t.resolver)
+		page.ancestors = ancestors
 		t.pages = append(t.pages, page)
 
 	default:
@@ -224,9 +241,30 @@ func (t *PageTree) traversePageNode(node core.Dict, parent core.Dict) error {
 
 // Page represents a single PDF page
 type Page struct {
-	dict     core.Dict
-	parent   core.Dict // Parent Pages node (for inheritable attributes)
-	resolver ObjectResolver
+	dict      core.Dict
+	parent    core.Dict   // Parent Pages node (for inheritable attributes)
+	ancestors []core.Dict // All enclosing Pages nodes, nearest first (set by the page tree)
+	resolver  ObjectResolver
+}
+
+// inherited returns the value of an inheritable attribute: the page's own entry,
+// or that of the nearest enclosing Pages node that has one.
+func (p *Page) inherited(name string) core.Object {
+	if obj := p.dict.Get(name); obj != nil {
+		return obj
+	}
+	if len(p.ancestors) == 0 {
+		if p.parent != nil {
+			return p.parent.Get(name)
+		}
+		return nil
+	}
+	for _, a := range p.ancestors {
+		if obj := a.Get(name); obj != nil {
+			return obj
+		}
+	}
+	return nil
 }
 
 // NewPage creates a new page from a dictionary
@@ -267,13 +305,8 @@ func (p *Page) CropBox() ([]float64, error) {
 
 // getBox retrieves a box attribute (inheritable)
 func (p *Page) getBox(name string) ([]float64, error) {
-	// Try page dict first
-	boxObj := p.dict.Get(name)
-
-	// If not found, try parent (inheritable)
-	if boxObj == nil && p.parent != nil {
-		boxObj = p.parent.Get(name)
-	}
+	// Page dict first, then the enclosing Pages nodes (inheritable)
+	boxObj := p.inherited(name)
 
 	if boxObj == nil {
 		return nil, fmt.Errorf("%s not found", name)
@@ -314,13 +347,8 @@ func (p *Page) getBox(name string) ([]float64, error) {
 // Resources returns the page resources dictionary
 // This is inheritable
 func (p *Page) Resources() (core.Dict, error) {
-	// Try page dict first
-	resourcesObj := p.dict.Get("Resources")
-
-	// If not found, try parent (inheritable)
-	if resourcesObj == nil && p.parent != nil {
-		resourcesObj = p.parent.Get("Resources")
-	}
+	// Page dict first, then the enclosing Pages nodes (inheritable)
+	resourcesObj := p.inherited("Resources")
 
 	if resourcesObj == nil {
 		return nil, fmt.Errorf("resources not found")
@@ -376,13 +404,8 @@ func (p *Page) Contents() ([]core.Object, error) {
 // Rotate returns the page rotation (0, 90, 180, or 270)
 // This is inheritable
 func (p *Page) Rotate() int {
-	// Try page dict first
-	rotateObj := p.dict.Get("Rotate")
-
-	// If not found, try parent (inheritable)
-	if rotateObj == nil && p.parent != nil {
-		rotateObj = p.parent.Get("Rotate")
-	}
+	// Page dict first, then the enclosing Pages nodes (inheritable)
+	rotateObj := p.inherited("Rotate")
 
 	if rotateObj == nil {
 		return 0 // Default
